@@ -61,19 +61,23 @@ def tree_hash(crate_dir, config):
     h = hashlib.sha256()
     h.update(config.encode())
     paths = []
-    for root, dirs, files in os.walk(os.path.join(crate_dir, "src")):
-        dirs.sort()
+    # everything cargo / rustc can read from the package directory takes part in the key (sources, manifest, lock file, build script,
+    # `.cargo/config.toml`, `rust-toolchain`, path dependencies kept in the tree, ...): all files except build output and VCS data
+    for root, dirs, files in os.walk(crate_dir, followlinks=False):
+        dirs[:] = sorted(d for d in dirs if not (root == crate_dir and d in ("target", ".git")))
         for f in sorted(files):
             paths.append(os.path.join(root, f))
-    for extra in ("Cargo.toml", "Cargo.lock", "build.rs"):
-        p = os.path.join(crate_dir, extra)
-        if os.path.exists(p):
-            paths.append(p)
     for p in paths:
         h.update(os.path.relpath(p, crate_dir).encode())
         h.update(b"\0")
-        with open(p, "rb") as fh:
-            h.update(fh.read())
+        if os.path.islink(p):
+            h.update(b"->" + os.readlink(p).encode())
+        else:
+            try:
+                with open(p, "rb") as fh:
+                    h.update(fh.read())
+            except OSError:
+                h.update(b"<unreadable>")
         h.update(b"\0")
     with open(DRIVER, "rb") as fh:
         h.update(hashlib.sha256(fh.read()).digest())
